@@ -676,6 +676,7 @@ func (e *execEngine) query(ws []string) string {
 	case "bals":
 		var ps []string
 		names := append(append([]string{}, worldUsers...), "ca1", "ca2", "ca3", "ca4", "adm0", "adm1", "adm2", "adm3")
+		names = append(names, ws[1:]...) // q bals <extra accounts...>
 		for _, a := range names {
 			ps = append(ps, a+"="+e.query([]string{"bal", a}))
 		}
